@@ -150,11 +150,14 @@ class Evaluator:
       idx = [(cols.index(c), d) for c, d in keys]
       for i, desc in reversed(idx):
         rows.sort(key=lambda r: sort_key(canon(r[i])), reverse=desc)
-      # the order must be total up to identical rows, else the first K rows are a tie choice
+      # the order must be total up to identical rows, else the first K rows are a tie choice: if the group of
+      # rows sharing the order key of row K-1 extends beyond K, all rows of that group must be identical
       if k is not None and 0 < k < len(rows):
         def kk(r):
           return tuple(sort_key(canon(r[i])) for i, _ in idx)
-        if kk(rows[k - 1]) == kk(rows[k]) and rows[k - 1] != rows[k]:
+        edge = kk(rows[k - 1])
+        group = [r for r in rows if kk(r) == edge]
+        if kk(rows[k]) == edge and len(set(group)) > 1:
           raise Ambiguous()
     elif k is not None and 0 < k < len(rows) and len(set(rows)) > 1:
       raise Ambiguous()          # limit without order: which rows survive is unspecified
